@@ -35,12 +35,12 @@ theorem facts_match : gen = Expected.C16.facts := by decide
     `optMap` fresh per call and indexed by node key). -/
 theorem shape_ok : ∀ s ∈ FactsC16.shape, s.2 = true := by decide
 
-private theorem gen_T : gen.typeCmpIdentity = true := by decide
-private theorem gen_S : gen.strip = 1 := by decide
-private theorem gen_C : gen.nestedCopies = true := by decide
+theorem gen_T : gen.typeCmpIdentity = true := by decide
+theorem gen_S : gen.strip = 1 := by decide
+theorem gen_C : gen.nestedCopies = true := by decide
 
 /-- Every entry of a successful run is the root entry or satisfies `EntrySpec` at its path. -/
-private theorem run_entries {g : Nodes} (hwf : g.wf = true) {opts : List Opt} {out : List Entry}
+theorem run_entries {g : Nodes} (hwf : g.wf = true) {opts : List Opt} {out : List Entry}
     (hrun : run gen g opts = .ok out) (e : Entry) (he : e ∈ out) :
     (e.path = [] ∧ e.isGraph = true ∧ e.vals = [] ∧ e.handlers = graphHandlers opts) ∨
     EntrySpec g [] (graphHandlers opts) opts e := by
